@@ -1,5 +1,7 @@
 """C02  HashMap / HashSet / PoolMap behave as insertion-ordered unique-key tables."""
+import hashlib
 import itertools
+import multiprocessing as mp
 import common as C
 
 PROPERTIES = ["C02"]
@@ -254,19 +256,32 @@ def alphabet(kind):
 EX_CONFIGS = [(1, 1, 0), (2, 3, 0), (3, 2, 2), (8, None, 1), (2, 1, 3)]   # (cap of table 0, cap of table 1 | default, hash mode)
 
 
-def exhaustive(depth, rng=None, limit=None):
+def ex_prefix(kind, c0, c1, mode):
+    pre = [f"cfg {kind} {mode} 4", f"new 0 {c0}"] + ([f"new 1 {c1}"] if c1 is not None else [])
+    return pre + ["append 0 1 11", "append 1 1 11", "append 1 2 12"]
+
+
+def exhaustive(depth):
+    """every op sequence of length 1..depth over the container's alphabet, for every configuration"""
     hs = []
     for kind in KINDS:
         al = alphabet(kind)
         for (c0, c1, mode) in EX_CONFIGS:
-            pre = [f"cfg {kind} {mode} 4", f"new 0 {c0}"] + ([f"new 1 {c1}"] if c1 is not None else [])
-            pre += ["append 0 1 11", "append 1 1 11", "append 1 2 12"]
+            pre = ex_prefix(kind, c0, c1, mode)
             for d in range(1, depth + 1):
                 for p in itertools.product(al, repeat=d):
                     hs.append(pre + list(p) + ["wb 0", "wb 1"])
-    if limit and len(hs) > limit:
-        rng.shuffle(hs)
-        hs = hs[:limit]
+    return hs
+
+
+def sampled(rng, lengths, n):
+    """uniformly drawn op sequences of the given lengths over the same alphabets / configurations"""
+    hs = []
+    for _ in range(n):
+        kind = rng.choice(KINDS)
+        al = alphabet(kind)
+        c0, c1, mode = rng.choice(EX_CONFIGS)
+        hs.append(ex_prefix(kind, c0, c1, mode) + [rng.choice(al) for _ in range(rng.choice(lengths))] + ["wb 0", "wb 1"])
     return hs
 
 
@@ -276,24 +291,57 @@ def nontrivial(h, out):
     return (h[0].split()[1], frozenset(l.split()[0] for l in h), tuple(out[-3:]))
 
 
+def _mp_worker(args):
+    harness, driver, part, timeout = args
+    ds, nlines, done, crash, ios = C.run_batch(harness, driver, part, reference, C.default_eq, timeout)
+    keys = set()
+    for h, o in zip(part, ios):
+        k = nontrivial(h, o)
+        if k is not None:
+            keys.add(hashlib.sha1(repr((k[0], sorted(k[1]), k[2])).encode()).digest()[:12])
+    if crash and not ds:
+        ds.append(C.Diff(part[-1] if part else [], max(0, len(part[-1]) - 1) if part else 0,
+                         "impl-exit", f"exit code {crash[0]}", None, None, crash[1]))
+    return ds, nlines, done, keys
+
+
+def differential_mp(ctx, harness, driver, histories, timeout):
+    """C.differential with worker PROCESSES: the Python reference and the comparison dominate the run time
+    and do not run in parallel under threads.  Same verdict logic (C.run_batch), same counters."""
+    if not histories:
+        return []
+    chunk = max(1, min(4000, (len(histories) + C.NCPU * 4 - 1) // (C.NCPU * 4)))
+    parts = [(harness, driver, histories[i:i + chunk], timeout) for i in range(0, len(histories), chunk)]
+    diffs, keys = [], set()
+    with mp.get_context("fork").Pool(C.NCPU) as pool:
+        for ds, nlines, done, ks in pool.imap(_mp_worker, parts):
+            ctx.cov["evaluations"] += nlines
+            ctx.cov["traces_validated_against_impl"] += done
+            diffs += ds
+            keys |= ks
+    ctx.cov["distinct_nontrivial"] = ctx.cov.get("distinct_nontrivial", 0) + len(keys)
+    return diffs
+
+
 def histories_for(ctx):
     rng = ctx.rng
     quick = ctx.tier == "quick"
     hs = C.load_corpus(ctx.prop)
     ncorpus = len(hs)
-    depth = 2 if quick else 3
-    ex = exhaustive(depth, rng, None if quick else 400000)
-    rnd = [gen_history(rng, rng.choice([5, 10, 20, 40, 80])) for _ in range(2500 if quick else 40000)]
+    depth = 3
+    ex = exhaustive(depth)
+    smp = sampled(rng, [4, 5, 6], 10000 if quick else 900000)
+    rnd = [gen_history(rng, rng.choice([5, 10, 20, 40, 80])) for _ in range(6000 if quick else 150000)]
     ctx.cov["rule"] = (f"corpus ({ncorpus}) + exhaustive: for each container (map,set,pool) x {len(EX_CONFIGS)} (capacity, capacity, hash) configurations, "
                        f"all op sequences of length <= {depth} over the container's op alphabet ({', '.join(str(len(alphabet(k))) for k in KINDS)} ops; keys 0..3, two tables) "
-                       f"after a 3-insert prefix ({len(ex)} histories) + {len(rnd)} random histories of 5..80 ops over 2 tables, capacities {CAPS}, hash modes "
+                       f"after a 3-insert prefix ({len(ex)} histories, complete) + {len(smp)} uniformly drawn sequences of length 4..6 over the same alphabets + {len(rnd)} random histories of 5..80 ops over 2 tables, capacities {CAPS}, hash modes "
                        "identity/constant/mod 2/complement/halving, key domains 3..8; every op line prints size, isEmpty, iteration, find of every key, contains, front/back, "
                        "== in both directions, returned iterator position, backward traversal and white-box chain consistency flags; `wb` lines (end of every enumerated history, 12% of "
                        "the random ops) compare capacity, block count, every bucket chain, the free list and the order list as canonical item ids (4*block+slot) with the model's stored data; "
                        "distinct_nontrivial = distinct (container, op-kind set, final observation)")
     ctx.cov["exhaustive"] = False
-    ctx.cov["exhaustive_scope"] = f"length<={depth} over the per-container alphabets x {len(EX_CONFIGS)} configurations: {len(ex)} histories"
-    return hs + ex + rnd
+    ctx.cov["exhaustive_scope"] = f"length<={depth} over the per-container alphabets x {len(EX_CONFIGS)} configurations: {len(ex)} histories (complete)"
+    return hs + ex + smp + rnd
 
 
 def check(ctx):
@@ -318,8 +366,7 @@ def check(ctx):
                 ops[l.split()[0]] = ops.get(l.split()[0], 0) + 1
         ctx.cov["op_histogram"] = ops
         ctx.cov["samples"] = [" ; ".join(h) for h in (hs[-3:] + hs[len(hs) // 2: len(hs) // 2 + 2])]
-        diffs = C.differential(ctx, harness, C.driver_path(DRIVER), hs, reference, C.default_eq, nontrivial=nontrivial,
-                               timeout=60 if ctx.tier == "quick" else 240)
+        diffs = differential_mp(ctx, harness, C.driver_path(DRIVER), hs, 60 if ctx.tier == "quick" else 240)
         ctx.log(f"{len(hs)} histories, {ctx.cov['evaluations']} op lines, {len(diffs)} disagreement(s)")
         C.report_diffs(ctx, diffs, harness, C.driver_path(DRIVER), reference, C.default_eq, "hash-ops")
     finally:
